@@ -585,3 +585,250 @@ Qed.
 
 Lemma no_panic_seq cs c : fst (exec fixed (exec_all fixed init_state cs) c) <> Panic.
 Proof. apply exec_no_panic, exec_all_inv, Inv_init. Qed.
+
+(** ** Empty rollout target sets
+
+    `rollout deploy` with no targets succeeds (NewTargetList of nothing is
+    legal and vacuously healthy) and leaves a rollout balancer without
+    targets: [s_rollout = Some []].  It is the only way to get one. *)
+
+Definition rollout_deploy_nonempty (c : cmd) : Prop :=
+  match c with RolloutDeploy _ [] => False | _ => True end.
+
+Definition Rn (l : list service) : Prop := Forall (fun s => s_rollout s <> Some []) l.
+
+Lemma sync_one_rollout src s : s_rollout (sync_one src s) = s_rollout s.
+Proof. unfold sync_one. destruct (serves_root s); [reflexivity|]. now destruct (src _). Qed.
+
+Lemma Rn_sync l : Rn l -> Rn (sync_tls l).
+Proof.
+  unfold Rn. rewrite sync_tls_eq, !Forall_forall. intros H s Hs. rewrite in_map_iff in Hs.
+  destruct Hs as (x & <- & Hx). rewrite sync_one_rollout. auto.
+Qed.
+
+Lemma Rn_install l s : Rn l -> s_rollout s <> Some [] -> Rn (install l s).
+Proof.
+  intros Hl Hs. unfold install. apply Rn_sync. unfold Rn, svc_set. rewrite Forall_app. split.
+  - now apply Forall_svc_remove.
+  - now constructor.
+Qed.
+
+Lemma Rn_repl l s' : Rn l -> s_rollout s' <> Some [] -> Rn (map (repl s') l).
+Proof.
+  unfold Rn. rewrite !Forall_forall. intros H Hs y Hy. rewrite in_map_iff in Hy.
+  destruct Hy as (x & <- & Hx). unfold repl. destruct (str_eqb _ _); auto.
+Qed.
+
+Lemma Rn_get l n s : Rn l -> svc_get l n = Some s -> s_rollout s <> Some [].
+Proof.
+  unfold Rn. rewrite Forall_forall. intros H Hg. apply svc_get_some in Hg. apply H, Hg.
+Qed.
+
+Lemma deploy_into_rn st s slot targets :
+  Rn (st_services st) -> s_rollout (slot_new s slot (map tg_name targets)) <> Some [] ->
+  Rn (st_services (snd (deploy_into fixed st s slot targets))).
+Proof.
+  intros H Hs. rewrite deploy_into_fixed. cbv zeta.
+  destruct (negb (forallb valid_target_name _)); [exact H|].
+  destruct (negb (forallb tg_healthy _)); [exact H|].
+  destruct (conflicts _ _ _ _); cbn [snd]; [exact H|]. now apply Rn_install.
+Qed.
+
+Lemma exec_rn st c :
+  Inv st -> rollout_deploy_nonempty c -> Rn (st_services st) -> Rn (st_services (snd (exec fixed st c))).
+Proof.
+  intros HI Hc H. destruct c as [name o t targets|name targets|name pct allow|name|name fa|name msg|name|name|];
+    cbn [exec]; unfold on_service.
+  - destruct (init_check fixed (normalize o)); [exact H|]. apply deploy_into_rn; [exact H|].
+    destruct (svc_get (st_services st) name) as [old|] eqn:Eg; cbn; [|discriminate].
+    eapply Rn_get; eauto.
+  - destruct (svc_get (st_services st) name) as [s|] eqn:Eg; [|exact H].
+    apply deploy_into_rn; [exact H|]. cbn. destruct targets; [contradiction|discriminate].
+  - destruct (svc_get (st_services st) name) as [s|] eqn:Eg; [|exact H].
+    destruct (s_rollout s) eqn:Er; [|exact H]. rewrite save_replace. cbn.
+    apply Rn_repl; [exact H|]. cbn. rewrite Er. intros K. rewrite <- Er in K. revert K. eapply Rn_get; eauto.
+  - destruct (svc_get (st_services st) name) as [s|] eqn:Eg; [|exact H].
+    rewrite save_replace. cbn. apply Rn_repl; [exact H|]. cbn. eapply Rn_get; eauto.
+  - destruct (svc_get (st_services st) name) as [s|] eqn:Eg; [|exact H].
+    rewrite save_replace. cbn. apply Rn_repl; [exact H|]. cbn. eapply Rn_get; eauto.
+  - destruct (svc_get (st_services st) name) as [s|] eqn:Eg; [|exact H].
+    destruct (get_ok _ _ _ HI Eg) as (_ & Hp & _). rewrite set_pause_state_ok by exact Hp.
+    rewrite save_replace. cbn. apply Rn_repl; [exact H|]. cbn. eapply Rn_get; eauto.
+  - destruct (svc_get (st_services st) name) as [s|] eqn:Eg; [|exact H].
+    destruct (get_ok _ _ _ HI Eg) as (_ & Hp & _). rewrite set_pause_state_ok by exact Hp.
+    rewrite save_replace. cbn. apply Rn_repl; [exact H|]. cbn. eapply Rn_get; eauto.
+  - destruct (svc_get (st_services st) name) as [s|] eqn:Eg; [|exact H].
+    cbn. apply Rn_sync. now apply Forall_svc_remove.
+  - cbn [snd]. rewrite restart_fixed by exact HI. exact H.
+Qed.
+
+Lemma rollout_nonempty cs :
+  Forall rollout_deploy_nonempty cs ->
+  Forall (fun s => s_rollout s <> Some []) (st_services (exec_all fixed init_state cs)).
+Proof.
+  assert (G : forall cs st, Inv st -> Rn (st_services st) -> Forall rollout_deploy_nonempty cs ->
+                            Rn (st_services (exec_all fixed st cs))).
+  { clear cs. induction cs as [|c cs IH]; intros st HI H Hcs; [exact H|].
+    inversion Hcs; subst. cbn [exec_all]. apply IH; [now apply exec_inv|now apply exec_rn|assumption]. }
+  intros H. apply G; [apply Inv_init|constructor|exact H].
+Qed.
+
+(** ** No two installed services share a (host, prefix) pair; hence
+    re-installing an installed service (rollout deploy) never conflicts *)
+
+Definition PW (t : table) : Prop :=
+  forall a b, In a t -> In b t -> bi_name a <> bi_name b ->
+  forall h p, In h (bi_hosts a) -> In p (bi_prefixes a) -> In h (bi_hosts b) -> In p (bi_prefixes b) -> False.
+
+Lemma in_bindings_for_rev t h p b :
+  In b t -> In h (bi_hosts b) -> In p (bi_prefixes b) -> In (p, bi_name b) (bindings_for t h).
+Proof.
+  intros Hb Hh Hp. unfold bindings_for. rewrite in_flat_map. exists b. split; [assumption|].
+  rewrite in_flat_map. exists h. split; [assumption|]. rewrite str_eqb_refl.
+  apply in_map_iff. exists p. auto.
+Qed.
+
+Lemma conflicts_true_iff t name hosts prefixes :
+  conflicts t name hosts prefixes = true <->
+  exists h p b, In h hosts /\ In p prefixes /\ In b t /\ bi_name b <> name /\
+                In h (bi_hosts b) /\ In p (bi_prefixes b).
+Proof.
+  unfold conflicts. rewrite existsb_exists. split.
+  - intros (h & Hh & H). rewrite existsb_exists in H. destruct H as (p & Hp & H).
+    rewrite existsb_exists in H. destruct H as ([p' n'] & Hb & H). cbn [fst snd] in H.
+    rewrite andb_true_iff, negb_true_iff in H. destruct H as [H1 H2]. str_cases. subst p'.
+    apply in_bindings_for in Hb. destruct Hb as (b & Hb & Hn & Hpb & Hhb). subst n'.
+    exists h, p, b. repeat split; assumption.
+  - intros (h & p & b & Hh & Hp & Hb & Hn & Hhb & Hpb). exists h. split; [assumption|].
+    rewrite existsb_exists. exists p. split; [assumption|].
+    rewrite existsb_exists. exists (p, bi_name b). split; [now apply in_bindings_for_rev|].
+    cbn [fst snd]. rewrite str_eqb_refl. cbn. apply negb_true_iff. now apply str_eqb_neq.
+Qed.
+
+Lemma PW_no_conflict l s :
+  PW (table_of l) -> In s l ->
+  conflicts (table_of l) (s_name s) (o_hosts (s_opts s)) (o_prefixes (s_opts s)) = false.
+Proof.
+  intros H Hs. destruct (conflicts _ _ _ _) eqn:E; [|reflexivity]. exfalso.
+  apply conflicts_true_iff in E. destruct E as (h & p & b & Hh & Hp & Hb & Hn & Hhb & Hpb).
+  apply (H b (bi_of s)) with (h := h) (p := p); auto. unfold table_of. now apply in_map.
+Qed.
+
+Lemma in_table_remove l n b : In b (table_of (svc_remove l n)) -> In b (table_of l) /\ bi_name b <> n.
+Proof.
+  unfold table_of. rewrite in_map_iff. intros (s & <- & Hs). apply in_svc_remove in Hs.
+  destruct Hs. split; [now apply in_map|assumption].
+Qed.
+
+Lemma PW_remove l n : PW (table_of l) -> PW (table_of (svc_remove l n)).
+Proof.
+  intros H a b Ha Hb. apply in_table_remove in Ha, Hb. apply H; tauto.
+Qed.
+
+Lemma PW_install l s :
+  PW (table_of l) ->
+  conflicts (table_of l) (s_name s) (o_hosts (s_opts s)) (o_prefixes (s_opts s)) = false ->
+  PW (table_of (install l s)).
+Proof.
+  intros H Hc. unfold install. rewrite table_sync. unfold svc_set, table_of. rewrite map_app.
+  fold (table_of (svc_remove l (s_name s))). cbn [map].
+  assert (Hnew : forall a, In a (table_of (svc_remove l (s_name s))) ->
+            forall h p, In h (bi_hosts a) -> In p (bi_prefixes a) ->
+                        In h (o_hosts (s_opts s)) -> In p (o_prefixes (s_opts s)) -> False).
+  { intros a Ha h p H1 H2 H3 H4. apply in_table_remove in Ha. destruct Ha as [Ha Hn].
+    assert (E : conflicts (table_of l) (s_name s) (o_hosts (s_opts s)) (o_prefixes (s_opts s)) = true).
+    { apply conflicts_true_iff. exists h, p, a. repeat split; assumption. }
+    congruence. }
+  intros a b Ha Hb Hn h p H1 H2 H3 H4. rewrite in_app_iff in Ha, Hb. cbn [In] in Ha, Hb.
+  destruct Ha as [Ha|[<-|[]]], Hb as [Hb|[<-|[]]].
+  - eapply (PW_remove l (s_name s) H a b); eauto.
+  - eapply Hnew; eauto.
+  - eapply Hnew; eauto.
+  - now apply Hn.
+Qed.
+
+Lemma table_repl l n s s' :
+  NoDup (names l) -> svc_get l n = Some s -> s_name s' = s_name s -> s_opts s' = s_opts s ->
+  table_of (map (repl s') l) = table_of l.
+Proof.
+  intros Hn Hg H1 H2. apply svc_get_some in Hg. destruct Hg as [Hs _].
+  unfold table_of. rewrite map_map. apply map_ext_in. intros x Hx.
+  destruct (repl_cases l s s' x Hn Hs H1 Hx) as [->|[-> ->]]; [reflexivity|].
+  unfold bi_of. now rewrite H1, H2.
+Qed.
+
+Lemma deploy_into_pw st s slot targets :
+  PW (table_of (st_services st)) ->
+  PW (table_of (st_services (snd (deploy_into fixed st s slot targets)))).
+Proof.
+  intros H. rewrite deploy_into_fixed. cbv zeta.
+  destruct (negb (forallb valid_target_name _)); [exact H|].
+  destruct (negb (forallb tg_healthy _)); [exact H|].
+  destruct (conflicts _ _ _ _) eqn:E; cbn [snd]; [exact H|].
+  cbn [save st_services]. apply PW_install; [exact H|]. now rewrite slot_new_name, slot_new_opts.
+Qed.
+
+Lemma exec_pw st c :
+  Inv st -> PW (table_of (st_services st)) -> PW (table_of (st_services (snd (exec fixed st c)))).
+Proof.
+  intros HI H.
+  assert (Hrep : forall n s s', svc_get (st_services st) n = Some s -> same_static s s' ->
+            PW (table_of (st_services (save (replace_svc st s'))))).
+  { intros n s s' Hg (H1 & H2 & _). rewrite save_replace. cbn [save st_services].
+    erewrite table_repl; eauto. apply HI. }
+  destruct c as [name o t targets|name targets|name pct allow|name|name fa|name msg|name|name|];
+    cbn [exec]; unfold on_service.
+  - destruct (init_check fixed (normalize o)); [exact H|]. now apply deploy_into_pw.
+  - destruct (svc_get (st_services st) name); [now apply deploy_into_pw|exact H].
+  - destruct (svc_get (st_services st) name) as [s|] eqn:Eg; [|exact H].
+    destruct (s_rollout s); [|exact H]. cbn [snd]. eapply Hrep; [exact Eg|apply same_static_with_roll].
+  - destruct (svc_get (st_services st) name) as [s|] eqn:Eg; [|exact H].
+    cbn [snd]. eapply Hrep; [exact Eg|apply same_static_with_roll].
+  - destruct (svc_get (st_services st) name) as [s|] eqn:Eg; [|exact H].
+    cbn [snd]. eapply Hrep; [exact Eg|apply same_static_with_pause].
+  - destruct (svc_get (st_services st) name) as [s|] eqn:Eg; [|exact H].
+    destruct (get_ok _ _ _ HI Eg) as (_ & Hp & _). rewrite set_pause_state_ok by exact Hp.
+    cbn [snd]. eapply Hrep; [exact Eg|apply same_static_with_pause].
+  - destruct (svc_get (st_services st) name) as [s|] eqn:Eg; [|exact H].
+    destruct (get_ok _ _ _ HI Eg) as (_ & Hp & _). rewrite set_pause_state_ok by exact Hp.
+    cbn [snd]. eapply Hrep; [exact Eg|apply same_static_with_pause].
+  - destruct (svc_get (st_services st) name) as [s|] eqn:Eg; [|exact H].
+    cbn [snd save st_services]. rewrite table_sync. now apply PW_remove.
+  - cbn [snd]. rewrite restart_fixed by exact HI. exact H.
+Qed.
+
+Lemma reachable_pw st : reachable fixed st -> PW (table_of (st_services st)).
+Proof.
+  intros [cs ->].
+  assert (G : forall cs st, Inv st -> PW (table_of (st_services st)) ->
+                            PW (table_of (st_services (exec_all fixed st cs)))).
+  { clear cs. induction cs as [|c cs IH]; intros st HI H; [exact H|].
+    cbn [exec_all]. apply IH; [now apply exec_inv|now apply exec_pw]. }
+  apply G; [apply Inv_init|]. intros a b [].
+Qed.
+
+(** `rollout deploy` re-installs the service it found: it cannot be refused
+    for a host conflict (so the update of the live service's rollout slot
+    that the code makes before installing is never left half done). *)
+Lemma rollout_deploy_no_conflict st name targets :
+  reachable fixed st -> fst (exec fixed st (RolloutDeploy name targets)) <> Err EHostInUse.
+Proof.
+  intros Hr. cbn [exec]. destruct (svc_get (st_services st) name) as [s|] eqn:Eg; [|discriminate].
+  rewrite deploy_into_fixed. cbv zeta.
+  destruct (negb (forallb valid_target_name _)); [discriminate|].
+  destruct (negb (forallb tg_healthy _)); [discriminate|].
+  rewrite PW_no_conflict; [discriminate|now apply reachable_pw|].
+  apply svc_get_some in Eg. apply Eg.
+Qed.
+
+(** C06, assembled. *)
+Lemma exec_err_atomic st c e st' :
+  reachable fixed st -> exec fixed st c = (Err e, st') ->
+  st_services st' = st_services st /\
+  st_probing st' = st_probing st /\
+  (st_disk st' = st_disk st \/
+   (st_disk st = None /\ st_services st' = [] /\ st_disk st' = Some (st_services st'))).
+Proof.
+  intros Hr H. split; [eapply exec_err_services; eauto|].
+  split; [eapply exec_err_probing; eauto|]. eapply exec_err_disk; eauto using reachable_inv.
+Qed.
